@@ -45,10 +45,10 @@ template<class Sk, class MkK> static Sk build_tree(const std::vector<float>& v, 
   return a;
 }
 template<class Sk> static void eps_report(const char* fam, const char* group, int k, long n, const Sk& s);
-template<class Sk, class Mk> static void eps_trial(const char* fam, int k, long n, bool merged, vt::Rng& g, Mk mk) {
+template<class Sk, class Mk> static void eps_trial(const char* fam, int k, long n, bool merged, vt::Rng& g, Mk mk, const char* group = "flat") {
   std::vector<float> v = permutation(n, g);
   Sk s = build<Sk>(v, merged, mk);
-  eps_report(fam, "flat", k, n, s);
+  eps_report(fam, group, k, n, s);
 }
 template<class Sk, class MkK> static void eps_tree_trial(const char* fam, const int* ks, long n, vt::Rng& g, MkK mk) {
   std::vector<float> v = permutation(n, g);
@@ -177,6 +177,18 @@ int main(int argc, char** argv) {
       if (tree) req_trial(REQ_T[(t / 3) % 3], (t / 6) % 2 == 0, n, 2, g);
       else req_trial(flat, (t / 4) % 2 == 0, n, merged ? 1 : 0, g);
     }
+  }
+  // the extreme configurations of "all k": the largest k, 2^15 (where 2k leaves 16 bits) and its neighbours, on streams long enough for
+  // estimation mode; group "kmax" (6 trials)
+  if (fam == 0) {
+    static const int KK[3] = {65535, 32768, 32767};
+    for (int t = 0; t < 6; t++) { const int k = KK[t % 3]; eps_trial<kll_sketch<float>>("kll", k, 250000, t >= 3, g, [=]() { return kll_sketch<float>((uint16_t)k); }, "kmax"); }
+  } else if (fam == 1) {
+    static const int KK[2] = {32768, 16384};
+    for (int t = 0; t < 6; t++) { const int k = KK[t % 2]; eps_trial<quantiles_sketch<float>>("classic", k, 250000, t >= 4, g, [=]() { return quantiles_sketch<float>((uint16_t)k); }, "kmax"); }
+  } else if (fam == 2) {
+    static const int KK[3][3] = {{1024, 0, 0}, {512, 0, 0}, {256, 0, 0}};
+    for (int t = 0; t < 6; t++) req_trial(KK[t % 3], t % 2 == 0, 100000, t >= 3 ? 1 : 0, g, "kmax");
   }
   if (fam == 2) {
     // DIRECTED group for the known finding C08:req-mixed-k-merge-bounds: the small k BELOW the top of a depth-2 tree - the final sketch
